@@ -38,7 +38,10 @@ func init() {
 			"(escape character, enclosure, field terminator, line terminator), prefixing it with the escape string. A violated instance means that rows exported with some option combination are read back differently.",
 		NotCovered: "that escaping and unescaping are inverse on every value (only the set of escaped delimiters is decided), NULL representation, character sets, DUMPFILE, SET/user-variable handling of LOAD DATA, " +
 			"guards that only differ in how they compare (e.g. TERMINATED BY '' handling)",
-		Run: func(c *Ctx) { runC50(c, real, 6) },
+		Run: func(c *Ctx) {
+			runC50(c, real, 6)
+			runC50Opts(c, real, c50Floors{o1: 6, o2: 6, o3: 2, o4: 2, o5: 12})
+		},
 		Fixture: func(c *Ctx, fx2 *Prog) {
 			expectFixture(c, fx2, "c50: different default, different override source, option ignored by one executor, unescaped delimiter must be reported",
 				[]string{
